@@ -139,19 +139,56 @@ CallsTiny ==
       C("http", "pcont", "-", <<"error">>), C("http", "cancel", "-", <<>>) }
 Ctx3 == { X(NoTC, NoTC), X(NoTC, TC("sampled", "valid")), X(TC("unsampled", "none"), NoTC) }
 
-\* hook configurations.  sampler is the TracerProvider's sampler (the SDK decides whether a
-\* span records); prop = "w3c": OtelConfig.Propagator = propagation.TraceContext{};
+\* hook configurations.  sampler names the TracerProvider's sampling behaviour (the tracer, not
+\* the hook, decides whether a span RECORDS and whether it carries the SAMPLED flag - see
+\* SamplerTable below); prop = "w3c": OtelConfig.Propagator = propagation.TraceContext{};
 \* prop = "global": OtelConfig.Propagator left nil, so InstrumentServer takes
 \* otel.GetTextMapPropagator(), which is a no-op unless the application installed one.
 Cf(t, m, s, p) == [tracing |-> t, metrics |-> m, sampler |-> s, prop |-> p]
+
+\* What tracer.Start decides for a new span.  RECORDING and SAMPLED are independent:
+\*   "drop"   : non-recording span, sampled flag cleared           (SDK Drop)
+\*   "record" : recording span WITHOUT the sampled flag            (SDK RecordOnly, e.g.
+\*              sdktrace.AlwaysRecord, or a child that inherits trace-flags 00 and still records)
+\*   "sample" : recording span with the sampled flag               (SDK RecordAndSample)
+\*   "noop"   : non-recording span that carries the caller's span context UNCHANGED, sampled
+\*              flag included (the API's no-op tracer: no SDK installed)
+\* A sampler is a table <<root, sampled parent, unsampled parent>> of decisions - what it
+\* answers when the hook extracted no valid remote parent, one with trace-flags 01, one with
+\* trace-flags 00.  Named "t_xyz" by the first letters; the three classic SDK samplers keep
+\* their names.
+Decisions == {"drop", "record", "sample", "noop"}
+Letter(d) == CASE d = "drop" -> "d" [] d = "record" -> "r" [] d = "sample" -> "s" [] d = "noop" -> "n"
+TableName(t) == "t_" \o Letter(t[1]) \o Letter(t[2]) \o Letter(t[3])
+TablesSDK == { <<a, b, c>> : a \in {"drop", "record", "sample"}, b \in {"drop", "record", "sample"},
+                             c \in {"drop", "record", "sample"} }
+TablesAll == { <<a, b, c>> : a \in Decisions, b \in Decisions, c \in Decisions }
+SamplerTable(s) ==
+    CASE s = "parentbased" -> <<"sample", "sample", "drop">>      \* ParentBased(AlwaysSample)
+      [] s = "always"      -> <<"sample", "sample", "sample">>    \* AlwaysSample
+      [] s = "never"       -> <<"drop", "drop", "drop">>          \* NeverSample
+      [] OTHER             -> CHOOSE t \in TablesAll : TableName(t) = s
+\* samplers under which a span can record without being sampled / be sampled without recording
+SamplersQuick == { "t_rrr",     \* AlwaysRecord(NeverSample): every span records, none is sampled
+                   "t_ssr",     \* AlwaysRecord(ParentBased(AlwaysSample)): child of a 00 caller records
+                   "t_rsd",     \* ParentBased(root = record-only)
+                   "t_drs",     \* the inverse of the default: decisions and flags disagree throughout
+                   "t_nnn" }    \* no SDK: non-recording spans that keep the caller's flags
+CfgTables == { Cf(TRUE, TRUE, TableName(t), "w3c") : t \in TablesSDK }
+             \cup { Cf(TRUE, TRUE, s, "w3c") : s \in {"t_nnn", "t_snn", "t_nsr"} }
+             \cup { Cf(TRUE, FALSE, s, p) : s \in {"t_rrr", "t_ssr"}, p \in {"w3c", "global"} }
 CfgAll == { Cf(TRUE, m, s, p) : m \in BOOLEAN, s \in {"parentbased", "always", "never"}, p \in {"w3c", "global"} }
           \cup { Cf(FALSE, m, "parentbased", p) : m \in BOOLEAN, p \in {"w3c", "global"} }
+          \cup CfgTables
 CfgQuick == { Cf(TRUE, TRUE, "parentbased", "w3c"), Cf(TRUE, TRUE, "always", "w3c"),
               Cf(TRUE, FALSE, "parentbased", "w3c"), Cf(FALSE, TRUE, "parentbased", "w3c"),
               Cf(TRUE, TRUE, "never", "w3c"), Cf(TRUE, TRUE, "parentbased", "global"),
               Cf(FALSE, FALSE, "parentbased", "w3c") }
+            \cup { Cf(TRUE, TRUE, s, "w3c") : s \in SamplersQuick }
 CfgMC == { Cf(TRUE, TRUE, "parentbased", "w3c"), Cf(TRUE, FALSE, "always", "w3c"),
-           Cf(FALSE, TRUE, "parentbased", "w3c"), Cf(TRUE, TRUE, "never", "global") }
+           Cf(FALSE, TRUE, "parentbased", "w3c"), Cf(TRUE, TRUE, "never", "global"),
+           Cf(TRUE, TRUE, "t_ssr", "w3c"), Cf(TRUE, FALSE, "t_rrr", "w3c"), Cf(TRUE, TRUE, "t_nnn", "w3c") }
+CfgRec == { Cf(TRUE, TRUE, s, "w3c") : s \in SamplersQuick }
 CfgOne == { Cf(TRUE, TRUE, "parentbased", "w3c") }
 
 --------------------------------------------------------------------------
@@ -217,19 +254,25 @@ Extract(tm) ==
           ts |-> IF tm.ts.v = "valid" THEN tm.ts.src ELSE "none"]
     ELSE NoParent
 
-\* TracerProvider sampler (SDK): does tracer.Start hand back a recording span?
-Samples(parent) ==
-    CASE cfg.sampler = "always" -> TRUE
-      [] cfg.sampler = "never" -> FALSE
-      [] OTHER -> IF parent.valid THEN parent.sampled ELSE TRUE    \* ParentBased(AlwaysSample)
+\* the tracer's decision for a span whose remote parent is `parent` (tracer.Start)
+Decide(parent) ==
+    LET t == SamplerTable(cfg.sampler) IN
+    IF ~parent.valid THEN t[1] ELSE IF parent.sampled THEN t[2] ELSE t[3]
+IsRecordingOf(d) == d \in {"record", "sample"}
+IsSampledOf(d, parent) == CASE d = "sample" -> TRUE
+                            [] d = "noop" -> parent.valid /\ parent.sampled
+                            [] OTHER -> FALSE
 
-NoSpan == [started |-> FALSE, recording |-> FALSE, parent |-> "root", ts |-> "none",
-           ends |-> 0, status |-> "Unset"]
+\* touched = calls the hook made on the span after Start (SetAttributes / SetStatus /
+\* RecordError / End), counted only to state "nothing is done to a non-recording span"
+NoSpan == [started |-> FALSE, recording |-> FALSE, sampled |-> FALSE, parent |-> "root", ts |-> "none",
+           ends |-> 0, status |-> "Unset", touched |-> FALSE]
 StartSpan(parent) ==
     IF ~cfg.tracing THEN NoSpan        \* &spanToken{startTime: ...} without a span
-    ELSE [started |-> TRUE, recording |-> Samples(parent),
+    ELSE LET d == Decide(parent) IN
+         [started |-> TRUE, recording |-> IsRecordingOf(d), sampled |-> IsSampledOf(d, parent),
           parent |-> IF parent.valid THEN parent.src ELSE "root",
-          ts |-> parent.ts, ends |-> 0, status |-> "Unset"]
+          ts |-> parent.ts, ends |-> 0, status |-> "Unset", touched |-> FALSE]
 
 --------------------------------------------------------------------------
 Idle == [n |-> 0, call |-> NoCall, ctx |-> X(NoTC, NoTC), phase |-> "idle", d |-> 0]
@@ -293,13 +336,15 @@ Hook_OnDispatchEnd_Metrics(cl) ==
     /\ Set(cl, [r EXCEPT !.phase = "metered"])
     /\ UNCHANGED <<cfg, stream, nreq, hist>>
 
-\* OnDispatchEnd, second half: "Record span attributes and status", then span.End()
+\* OnDispatchEnd, second half: "Record span attributes and status", then span.End().
+\* The gate is `st.span != nil && st.span.IsRecording()`: the span's sampled flag
+\* (span.SpanContext().IsSampled()) plays no part in it.
 Hook_OnDispatchEnd_Span(cl) ==
     LET r == inflight[cl]  sp == disp[r.d].span IN
     /\ r.phase = "metered"
     /\ IF sp.started /\ sp.recording
        THEN SetDisp(r.d, "span", [sp EXCEPT !.status = IF disp[r.d].failed THEN "Error" ELSE "Ok",
-                                            !.ends = @ + 1])
+                                            !.ends = @ + 1, !.touched = TRUE])
        ELSE UNCHANGED disp
     /\ Set(cl, [r EXCEPT !.phase = "ended"])
     /\ UNCHANGED <<cfg, stream, nreq, hist>>
@@ -339,6 +384,14 @@ ExpOf(r, l, streamAfter) ==
             :> [ok |-> SumAdds(l, "ok"), error |-> SumAdds(l, "error")])
      @@ [ open |-> Cardinality({ i \in Recording(l) : l[i].span.ends = 0 }),
           multi |-> Cardinality({ i \in Recording(l) : l[i].span.ends > 1 }),
+          \* what the tracer decided for the span this dispatch started (harness self-check:
+          \* the driver's TracerProvider implements SamplerTable) ...
+          flags |-> IF sp.started THEN << [rec |-> sp.recording, sampled |-> sp.sampled] >> ELSE <<>>,
+          \* ... and the non-recording spans of the whole history the hook called anything on
+          touched |-> Cardinality({ i \in 1..Len(l) : l[i].span.started /\ ~l[i].span.recording
+                                                        /\ l[i].span.touched }),
+          \* span.RecordError happened iff the span got status Error and RecordExceptions is on
+          exc_ok |-> IF rec THEN <<TRUE>> ELSE <<>>,
           status |-> IF rec THEN <<sp.status>> ELSE <<>>,
           tstate |-> IF rec THEN <<sp.ts>> ELSE <<>>,
           durations |-> IF hooked THEN l[r.d].durations ELSE 0,
@@ -391,6 +444,15 @@ NeverEndedTwice == \A i \in Recording(disp) : disp[i].span.ends <= 1
 EndedExactlyOnce == \A i \in Recording(disp) \cap Done : disp[i].span.ends = 1
 \* a span that has not been started by the hook is never ended
 OnlyStartedSpansEnd == \A i \in 1..Len(disp) : disp[i].span.ends > 0 => disp[i].span.started
+\* whether a span is ended (and given a status) depends on whether it RECORDS, never on its
+\* sampled flag: recording spans are covered by EndedExactlyOnce / ErrorIffFailed whatever
+\* their flag; a span that does not record is left alone whatever its flag
+NonRecordingLeftAlone ==
+    \A i \in 1..Len(disp) : (disp[i].span.started /\ ~disp[i].span.recording)
+        => disp[i].span.ends = 0 /\ disp[i].span.status = "Unset" /\ ~disp[i].span.touched
+\* model sanity: the two attributes really are independent in the configurations checked
+\* (use as an INVARIANT expected to be VIOLATED to see a recording unsampled span reached)
+NoRecordingUnsampledSpan == \A i \in Recording(disp) : disp[i].span.sampled
 
 \* marked as an error exactly when the call failed
 ErrorIffFailed ==
@@ -415,7 +477,7 @@ LedgerMatchesRequests ==
     /\ \A i, j \in 1..Len(disp) : i # j => disp[i].n # disp[j].n
     /\ \A i \in 1..Len(disp) : ReachesHook(disp[i].call)
 
-C43 == /\ NeverEndedTwice /\ EndedExactlyOnce /\ OnlyStartedSpansEnd /\ ErrorIffFailed
+C43 == /\ NeverEndedTwice /\ EndedExactlyOnce /\ OnlyStartedSpansEnd /\ NonRecordingLeftAlone /\ ErrorIffFailed
        /\ ParentedOnCaller /\ CountedOnceWithStatus /\ NeverCountedTwice
        /\ CounterTotalsDispatches /\ LedgerMatchesRequests
 
@@ -429,9 +491,12 @@ Last == hist'[Len(hist')]
 ExpConsistent ==
     [][ (Len(hist') > Len(hist)) =>
           /\ ("spans" \in DOMAIN Last.exp) =>
-                \A k \in 1..Len(Last.exp.spans) :
+                /\ \A k \in 1..Len(Last.exp.spans) :
                     /\ Last.exp.spans[k].ends = 1
                     /\ Last.exp.spans[k].err = CallFails(Last.args.call)
+                \* one entry per span that records - sampled or not - and none for the others
+                /\ Len(Last.exp.spans) = Cardinality({ k \in 1..Len(Last.exp.flags) : Last.exp.flags[k].rec })
+          /\ Last.exp.touched = 0
           /\ ("parent" \in DOMAIN Last.exp) =>
                 \A k \in 1..Len(Last.exp.parent) : Last.exp.parent[k] = Caller(Last.args.call, Last.args.ctx)
           /\ ("count" \in DOMAIN Last.exp) =>
